@@ -142,6 +142,16 @@ def analyse(plan: dict[str, Any], result: dict[str, Any]) -> Report:
             rep.bad(v['clause'],
                     **{a: b for a, b in v.items() if a != 'clause'})
         if st == 'ok':
+            # bounded liveness: every scheduler action is a post, a wake-up
+            # of a blocked rank or a completion, so a run that needs more
+            # than 4 x (transport events + blocking waits) actions is
+            # spinning
+            budget = 4 * (inc['n_events'] + inc['probes'].get(
+                'wait_unresolved', 0) + plan.get('world', 16)) + 64
+            rep.stats['liveness_bound_checked'] += 1
+            if inc['n_actions'] > budget:
+                rep.bad('C03.liveness_bound', inc=k,
+                        actions=inc['n_actions'], budget=budget)
             if inc['pending']:
                 rep.bad('C03.pending_at_end', inc=k, ops=inc['pending'][:5])
             if inc['open_futures']:
